@@ -118,6 +118,23 @@ Definition pstep (act : amod -> Z -> Z) (st : list (list pv)) (ps : list Z) (o :
     | None => Some (st, ps)
     end
   | CFirst _ | CLast _ | CCollect _ | CSize _ | CAgg _ => Some (st, ps)
+  (* remove_at on treap i, insert_at of the returned item on treap j: the value moves, its priority does not —
+     insert_at creates a new node, which draws the next priority *)
+  | CMove i k j k2 =>
+    match nth_error st i, nth_error st j with
+    | Some xs, Some _ =>
+      match nth_error xs (Z.to_nat k) with
+      | Some pvx =>
+        let st1 := replace_nth i (firstn (Z.to_nat k) xs ++ skipn (S (Z.to_nat k)) xs) st in
+        match nth_error st1 j with
+        | Some ys => let '(p, ps') := next_prio ps in
+                     Some (replace_nth j (firstn (Z.to_nat k2) ys ++ (p, snd pvx) :: skipn (Z.to_nat k2) ys) st1, ps')
+        | None => Some (st1, ps)
+        end
+      | None => Some (st, ps)     (* remove_at panicked: same sequences, nothing inserted *)
+      end
+    | _, _ => Some (st, ps)
+    end
   end.
 
 Fixpoint prun (act : amod -> Z -> Z) (st : list (list pv)) (ps : list Z) (ops : list cop) : option (list (list pv)) :=
